@@ -12,9 +12,11 @@ Definition modelled_handlers : list (string * list (list (list string * string))
   ("serve_one", [[(["pa.ArrowInvalid"], "raise"); (["VersionError"; "RpcError"], "return")]; [(["ProtocolVersionError"], "return")]; [(["Exception"], "return")]]);
   (* _serve_unary: hook guard ; the method call -> error batch, return (M_Wire: FErr e; FEos) ; hook guard *)
   ("_serve_unary", [[(["Exception"], "fall")]; [(["Exception"], "return")]; [(["Exception"], "fall")]]);
-  (* _serve_stream: hook guard ; init call -> error STREAM and return (srv_init InitRaise) ; hook guard ; on_cancel guard ;
-     input EOS -> break ; process()/flush -> error batch then EOS (srv_tick SErr) ; release guard ; hook guard *)
-  ("_serve_stream", [[(["Exception"], "fall")]; [(["Exception"], "return")]; [(["Exception"], "fall")]; [(["Exception"], "fall")]; [(["StopIteration"], "break")]; [(["Exception"], "fall")]; [(["Exception"], "fall")]; [(["Exception"], "fall")]])
+  (* _serve_stream: hook guard ; init call + result/declared-header validation (repo 735475d) -> error STREAM and return
+     (srv_init_for: init_outcome) ; hook guard ; on_cancel guard ; input EOS -> break ; process()/flush -> error batch then
+     EOS (srv_tick SErr) ; _coerce_input_batch guard that releases the shm region and re-raises into the previous handler
+     (repo 97117cd) ; release guard ; hook guard *)
+  ("_serve_stream", [[(["Exception"], "fall")]; [(["Exception"], "return")]; [(["Exception"], "fall")]; [(["Exception"], "fall")]; [(["StopIteration"], "break")]; [(["Exception"], "fall")]; [(["Exception"], "raise")]; [(["Exception"], "fall")]; [(["Exception"], "fall")]])
 ].
 
 Theorem wire_handlers_tie : gen_handlers = modelled_handlers.
